@@ -97,30 +97,103 @@ class Flow:
         return None
 
     def _bind_loop(self, target, it):
-        cands = self.origins(it)
-        for c in cands:
-            if isinstance(c, ast.Call) and isinstance(c.func, ast.Name) and c.func.id in ("list", "tuple", "sorted", "set", "iter", "reversed") and len(c.args) == 1 and _is_seq(c.args[0]):
-                c = c.args[0]
-            if isinstance(c, (ast.ListComp, ast.SetComp, ast.GeneratorExp)):
-                self._bind(target, c.elt)  # an element of a comprehension is its element expression (its own loops are bound separately)
-                continue
+        for el in self.elements(it):
+            self._bind(target, el)
+
+    _WRAPPERS = ("list", "tuple", "sorted", "set", "frozenset", "iter", "reversed")
+
+    def elements(self, it, depth=0) -> list:
+        """Expressions an element of the iterable `it` may be (opaque `__elem__(..)` when unknown): literal sequences,
+        comprehensions / generator expressions, the known name tables and literal dictionaries (keys / values / items),
+        list() / sorted() / reversed() / filter() / chain() / enumerate() / zip() / map(lambda) around those, and calls of
+        generator functions (their `yield` / `yield from` values, parameters bound to the arguments)."""
+        out = []
+        if depth > 4:
+            return [_elem(it)]
+        for c in self.origins(it):
+            fname = c.func.attr if isinstance(c, ast.Call) and isinstance(c.func, ast.Attribute) else getattr(getattr(c, "func", None), "id", None) if isinstance(c, ast.Call) else None
             tab = self._table_of(c)
-            if _is_seq(c) and not any(isinstance(e, ast.Starred) for e in c.elts):
+            if isinstance(c, (ast.ListComp, ast.SetComp, ast.GeneratorExp)):
+                out.append(c.elt)  # its own loops are bound separately
+            elif _is_seq(c):
                 for e in c.elts:
-                    self._bind(target, e)
+                    out += self.elements(e.value, depth + 1) if isinstance(e, ast.Starred) else [e]
             elif tab is not None:
                 d, what = tab
-                if what == "items" and isinstance(target, (ast.Tuple, ast.List)) and len(target.elts) == 2:
-                    for k, v in d.items():
-                        self._bind(target.elts[0], ast.Constant(value=k))
-                        self._bind(target.elts[1], ast.Constant(value=v))
-                elif what in ("keys", "values") and isinstance(target, ast.Name):
-                    for k, v in d.items():
-                        self._add(target.id, ast.Constant(value=k if what == "keys" else v))
+                for k, v in d.items():
+                    kc, vc = ast.Constant(value=k), ast.Constant(value=v)
+                    out.append(ast.Tuple(elts=[kc, vc], ctx=ast.Load()) if what == "items" else kc if what == "keys" else vc)
+            elif isinstance(c, ast.Dict) and all(k is not None for k in c.keys):
+                out += list(c.keys)
+            elif isinstance(c, ast.Call) and isinstance(c.func, ast.Attribute) and c.func.attr in ("keys", "values", "items") and not c.args \
+                    and any(isinstance(o, ast.Dict) and all(k is not None for k in o.keys) for o in self.origins(c.func.value)):
+                for o in self.origins(c.func.value):
+                    if isinstance(o, ast.Dict) and all(k is not None for k in o.keys):
+                        for k, v in zip(o.keys, o.values):
+                            out.append(ast.Tuple(elts=[k, v], ctx=ast.Load()) if c.func.attr == "items" else k if c.func.attr == "keys" else v)
+                    else:
+                        out.append(_elem(c))
+            elif fname in self._WRAPPERS and isinstance(c.func, ast.Name) and len(c.args) >= 1:
+                out += self.elements(c.args[0], depth + 1)
+            elif fname == "filter" and len(c.args) == 2:
+                out += self.elements(c.args[1], depth + 1)
+            elif fname == "chain" and c.args:
+                for a in c.args:
+                    out += self.elements(a, depth + 1)
+            elif fname == "from_iterable" and len(c.args) == 1:
+                for inner in self.elements(c.args[0], depth + 1):
+                    out += self.elements(inner, depth + 1)
+            elif fname == "enumerate" and c.args:
+                out += [ast.Tuple(elts=[_elem(c), e], ctx=ast.Load()) for e in self.elements(c.args[0], depth + 1)]
+            elif fname == "zip" and len(c.args) >= 2:
+                cols = [self.elements(a, depth + 1) for a in c.args]
+                if len({len(x) for x in cols}) == 1:
+                    out += [ast.Tuple(elts=list(row), ctx=ast.Load()) for row in zip(*cols)]
                 else:
-                    self._opaque(target, c)
+                    out.append(_elem(c))
+            elif fname == "map" and len(c.args) == 2 and isinstance(c.args[0], ast.Lambda) and len(c.args[0].args.args) == 1 and not c.args[0].args.defaults:
+                prm = c.args[0].args.args[0].arg
+                out += [_subst(c.args[0].body, prm, e) for e in self.elements(c.args[1], depth + 1)]
+            elif isinstance(c, ast.Call) and self.outer is not None and self.outer("callable", c) is not None:
+                out += self._generated(c, self.outer("callable", c), depth)
             else:
-                self._opaque(target, c)
+                out.append(_elem(c))
+        return out
+
+    def _generated(self, call, fn_node, depth) -> list:
+        """Values a call of a generator function yields, in the caller's terms."""
+        ys = [n for n in ast.walk(fn_node) if isinstance(n, (ast.Yield, ast.YieldFrom))]
+        if not ys or fn_node is self.node:
+            return [_elem(call)]
+        a = fn_node.args
+        if a.vararg or a.kwarg or any(isinstance(x, ast.Starred) for x in call.args) or any(k.arg is None for k in call.keywords):
+            return [_elem(call)]
+        params = [x.arg for x in a.posonlyargs + a.args]
+        args = list(call.args)
+        decos = {getattr(d, "id", None) for d in fn_node.decorator_list}
+        if isinstance(call.func, ast.Attribute) and "staticmethod" not in decos:
+            args = [call.func.value] + args  # the receiver is the first parameter
+        binding = dict(zip(params, args))
+        for k in call.keywords:
+            binding[k.arg] = k.value
+        defaults = dict(zip(params[len(params) - len(a.defaults):], a.defaults))
+        for k, d in zip(a.kwonlyargs, a.kw_defaults):
+            if d is not None:
+                defaults[k.arg] = d
+        for prm in params + [k.arg for k in a.kwonlyargs]:
+            if prm not in binding and prm in defaults:
+                binding[prm] = defaults[prm]
+        sub = Flow(fn_node, self.tables, self.outer)
+        vals = []
+        for y in ys:
+            if y.value is None:
+                continue
+            vals += sub.elements(y.value, depth + 1) if isinstance(y, ast.YieldFrom) else sub.values(y.value)
+        out = []
+        for v in vals:
+            # the generator's parameters in the caller's terms (one simultaneous substitution)
+            out.append(_rewrite(v, lambda n: binding.get(n.id) if isinstance(n, ast.Name) and isinstance(n.ctx, ast.Load) and n.id in binding else None))
+        return out or [_elem(call)]
 
     def _opaque(self, target, it):
         for x in ast.walk(target):
@@ -151,10 +224,15 @@ class Flow:
 
     # ------------------------------------------------------------------ alternatives
     def fold(self, e):
-        """Constant-fold look-ups in the known name tables: t[const], t.get(const)."""
+        """Constant-fold look-ups in the known name tables — t[const], t.get(const) — and strings assembled from constants
+        (f"_{'x'}", "_" + "x", "_%s" % "x", "_{}".format("x"))."""
         tables = self.tables
-        if not tables or not any(isinstance(n, ast.Name) and n.id in tables for n in ast.walk(e)):
+        if not any((isinstance(n, ast.Name) and n.id in tables) or isinstance(n, (ast.JoinedStr, ast.BinOp)) or
+                   (isinstance(n, ast.Attribute) and n.attr == "format") for n in ast.walk(e)):
             return e
+
+        def sconst(n):
+            return isinstance(n, ast.Constant) and isinstance(n.value, str)
 
         def f(n):
             if isinstance(n, ast.Subscript) and isinstance(n.ctx, ast.Load) and isinstance(n.value, ast.Name) and n.value.id in tables \
@@ -163,9 +241,24 @@ class Flow:
             if isinstance(n, ast.Call) and isinstance(n.func, ast.Attribute) and n.func.attr == "get" and isinstance(n.func.value, ast.Name) \
                     and n.func.value.id in tables and n.args and isinstance(n.args[0], ast.Constant) and n.args[0].value in tables[n.func.value.id]:
                 return ast.copy_location(ast.Constant(value=tables[n.func.value.id][n.args[0].value]), n)
+            if isinstance(n, ast.JoinedStr) and all(sconst(v) or (isinstance(v, ast.FormattedValue) and sconst(v.value) and v.conversion == -1 and v.format_spec is None)
+                                                    for v in n.values):
+                return ast.copy_location(ast.Constant(value="".join(v.value if sconst(v) else v.value.value for v in n.values)), n)
+            if isinstance(n, ast.BinOp) and isinstance(n.op, ast.Add) and sconst(n.left) and sconst(n.right):
+                return ast.copy_location(ast.Constant(value=n.left.value + n.right.value), n)
+            if isinstance(n, ast.BinOp) and isinstance(n.op, ast.Mod) and sconst(n.left) and sconst(n.right) and n.left.value.count("%") == 1 and "%s" in n.left.value:
+                return ast.copy_location(ast.Constant(value=n.left.value % n.right.value), n)
+            if isinstance(n, ast.Call) and isinstance(n.func, ast.Attribute) and n.func.attr == "format" and sconst(n.func.value) and not n.keywords \
+                    and n.args and all(sconst(a) for a in n.args) and n.func.value.value.count("{}") == len(n.args) and n.func.value.value.count("{") == len(n.args):
+                return ast.copy_location(ast.Constant(value=n.func.value.value.format(*[a.value for a in n.args])), n)
             return None
 
-        return _rewrite(e, f)
+        for _ in range(4):  # inner look-ups first, then the strings built from them
+            new = _rewrite(e, f)
+            if new is e:
+                break
+            e = new
+        return e
 
     def alts(self, expr) -> list:
         out, seen_txt = [], set()
@@ -267,6 +360,48 @@ def _rewrite(node, f):
 
 def _subst(e, name, value):
     return _rewrite(e, lambda n: value if isinstance(n, ast.Name) and n.id == name and isinstance(n.ctx, ast.Load) else None)
+
+
+def specialise(fn_node, sn, is_a):
+    """The function body for ONE class of `self`: `if` statements / conditional expressions whose test is decided by
+    isinstance(self, <class>) facts (is_a(class name) -> True | False | None; and / or / not handled three-valued) keep only
+    the side taken.  Copy-on-write; the input is not modified."""
+    from ..kinds import tv
+
+    names = set()
+    for n in ast.walk(fn_node):
+        if isinstance(n, ast.Call) and isinstance(n.func, ast.Name) and n.func.id == "isinstance" and len(n.args) == 2 and is_self(n.args[0], sn):
+            for c in (n.args[1].elts if isinstance(n.args[1], ast.Tuple) else [n.args[1]]):
+                nm = c.attr if isinstance(c, ast.Attribute) else getattr(c, "id", None)
+                if nm:
+                    names.add(nm)
+    facts = {}
+    for nm in names:
+        v = is_a(nm)
+        if v is not None:
+            facts[nm] = v
+    if not facts:
+        return fn_node
+
+    def f(n):
+        if isinstance(n, ast.If):
+            v = tv(n.test, sn, facts)
+            if v is None:
+                return None
+            taken = n.body if v else n.orelse
+            body = [specialise_stmt(x) for x in taken] or [ast.copy_location(ast.Pass(), n)]
+            return ast.copy_location(ast.If(test=ast.copy_location(ast.Constant(value=True), n), body=body, orelse=[]), n)
+        if isinstance(n, ast.IfExp):
+            v = tv(n.test, sn, facts)
+            if v is None:
+                return None
+            return _rewrite(n.body if v else n.orelse, f)
+        return None
+
+    def specialise_stmt(x):
+        return _rewrite(x, f)
+
+    return _rewrite(fn_node, f)
 
 
 # ---------------------------------------------------------------------- predicates
